@@ -1,6 +1,7 @@
 import CoxeterVerif.Driver.Proto
 import CoxeterVerif.Model.Mutable
 import CoxeterVerif.Model.Mutable2
+import CoxeterVerif.Model.Mutable3
 
 namespace OpsC03
 open Mut
@@ -32,6 +33,85 @@ def outState {α} [Codec α] (s : CPState α) : String :=
   let en := " ".intercalate (s.eqN.map Out.v3)
   let sn := " ".intercalate (s.seqN.map Out.v3)
   s!"{vs} {en} {Out.scs s.eqD} {sn} {Out.scs s.seqD} {Out.sc s.volume} {Out.sc s.area} {Out.v3 s.centroid}"
+
+
+/-! helpers for the full state machines (`Model/Mutable3.lean`) -/
+
+def outNats (l : List Nat) : String := " ".intercalate (s!"i{l.length}" :: l.map fun x => s!"i{x}")
+def outNatLists (l : List (List Nat)) : String := " ".intercalate (s!"i{l.length}" :: l.map outNats)
+def outEdges (l : List Edge2) : String :=
+  " ".intercalate (s!"i{l.length}" :: l.map fun e => s!"i{e.1} i{e.2}")
+def outEdgeCache (o : Option (List Edge2)) : String :=
+  match o with
+  | none => "i0"
+  | some e => "i1 " ++ outEdges e
+def rdEdge (c : Ctx) : Rd Edge2 := do let a ← Rd.nat c; let b ← Rd.nat c; pure (a, b)
+def rdOpt {β} (c : Ctx) (item : Rd β) : Rd (Option β) := do
+  let f ← Rd.nat c
+  if f = 0 then pure none else do let x ← item; pure (some x)
+
+/-- one of the opcodes 0–5 of `phstate.run` on the core of a `PHFull`:
+    (new core, raised?, vertices handed out by `to_hoomd`) -/
+def phCoreStep {α} [Scalar α] [Codec α] (c : Ctx) (code : Nat) (s : PHState α) :
+    Rd (PHState α × Bool × Option (List (V3 α))) := do
+  if code = 0 then
+    let v : α ← Rd.sc c
+    match s.setVolume v with
+    | .ok s' => pure (s', false, none)
+    | .error _ => pure (s, true, none)
+  else if code = 1 then
+    let v : α ← Rd.sc c
+    match s.setSurfaceArea v with
+    | .ok s' => pure (s', false, none)
+    | .error _ => pure (s, true, none)
+  else if code = 2 then
+    let cur : α ← Rd.sc c
+    let v : α ← Rd.sc c
+    match s.setRadius cur v with
+    | .ok s' => pure (s', false, none)
+    | .error _ => pure (s, true, none)
+  else if code = 3 then
+    let cur : V3 α ← Rd.v3 c
+    let cc : V3 α ← Rd.v3 c
+    pure (s.setCentroid cur cc, false, none)
+  else if code = 4 then
+    let P : M3 α ← rdM3 c
+    pure (s.diagonalizeInertia P, false, none)
+  else
+    let c0 : V3 α ← Rd.v3 c
+    let c1 : V3 α ← Rd.v3 c
+    let r := s.toHoomd c0 c1
+    pure (r.2, false, some r.1)
+
+/-- one of the opcodes 0–5 of `cpstate.run` on the core of a `CPFull` -/
+def cpCoreStep {α} [Scalar α] [Codec α] (c : Ctx) (code : Nat) (s : CPState α) :
+    Rd (CPState α × Bool × Option (CPState.Hoomd α)) := do
+  if code = 0 then
+    let v : α ← Rd.sc c
+    match s.setVolume v with
+    | .ok s' => pure (s', false, none)
+    | .error _ => pure (s, true, none)
+  else if code = 1 then
+    let v : α ← Rd.sc c
+    match s.setSurfaceArea v with
+    | .ok s' => pure (s', false, none)
+    | .error _ => pure (s, true, none)
+  else if code = 2 then
+    let cur : α ← Rd.sc c
+    let v : α ← Rd.sc c
+    match s.setRadius cur v with
+    | .ok s' => pure (s', false, none)
+    | .error _ => pure (s, true, none)
+  else if code = 3 then
+    let cc : V3 α ← Rd.v3 c
+    pure (s.setCentroid cc, false, none)
+  else if code = 4 then
+    let P : M3 α ← rdM3 c
+    let simp' ← Rd.list c (rdTriple c)
+    pure (s.diagonalizeInertia P simp', false, none)
+  else
+    let r := s.toHoomd
+    pure (r.2, false, some r.1)
 
 /-- driver ops of C03: `cpstate.run <state> <nops> (<opcode> args)*`
     opcodes: 0 setVolume v | 1 setSurfaceArea v | 2 setRadius current v | 3 setCentroid c(3)
@@ -132,6 +212,120 @@ def run (α : Type) [Scalar α] [Codec α] (op : String) (c : Ctx) : Option (Rd 
       let en := " ".intercalate (s.eqN.map Out.v3)
       let hv := " ".intercalate (hoomd.map Out.v3)
       pure (" ".intercalate log ++ s!" {vs} {en} {Out.scs s.eqD} {Out.sc s.volume} {Out.sc s.surfaceArea} {hv}")
+  | "phfull.run" => some do
+      -- <verts> <faces> <eqN> <eqD> <conv> <neighbors> <edges cache: 0 | 1 edges> <nops> (<opcode> args)*
+      -- opcodes 0–5 as `phstate.run`; 6 sortFaces faces1 | 7 mergeFaces faces1 | 8 read `edges`
+      -- reply: raise log; final verts, eqN, eqD, faces, neighbors, edges cache, volume, surface area;
+      --   vertices of the last to_hoomd; what the last `edges` read returned;
+      --   labels and contract of the last merge_faces (`i0` if none)
+      let verts ← Rd.list c (Rd.v3 c)
+      let faces ← Rd.list c (Rd.list c (Rd.nat c))
+      let eqN ← Rd.list c (Rd.v3 c)
+      let eqD ← Rd.list c (Rd.sc c)
+      let conv ← Rd.nat c
+      let nbrs ← Rd.list c (Rd.list c (Rd.nat c))
+      let cache ← rdOpt c (Rd.list c (rdEdge c))
+      let mut s : PHFull α := ⟨⟨verts, faces, eqN, eqD⟩, conv != 0, nbrs, cache⟩
+      let mut hoomd : List (V3 α) := verts
+      let mut lastEdges : List Edge2 := []
+      let mut mergeInfo : String := "i0"
+      let n ← Rd.nat c
+      let mut log : List String := []
+      for _ in [0:n] do
+        let code ← Rd.nat c
+        if code ≤ 5 then
+          let r ← phCoreStep c code s.core
+          s := { s with core := r.1 }
+          log := log ++ [if r.2.1 then "i1" else "i0"]
+          match r.2.2 with
+          | some h => hoomd := h
+          | none => pure ()
+        else if code = 6 then
+          let faces1 ← Rd.list c (Rd.list c (Rd.nat c))
+          match s.sortFaces faces1 with
+          | .ok s' => s := s'; log := log ++ ["i0"]
+          | .error _ => log := log ++ ["i1"]
+        else if code = 7 then
+          let faces1 ← Rd.list c (Rd.list c (Rd.nat c))
+          mergeInfo := "i1 " ++ outNats s.mergeLabels ++ " " ++ Out.bool (s.mergeContract faces1)
+          let r := s.mergeFaces faces1
+          s := r.1
+          log := log ++ [if r.2.isSome then "i1" else "i0"]
+        else
+          let r := s.readEdges
+          lastEdges := r.1
+          s := r.2
+          log := log ++ ["i0"]
+      let vs := " ".intercalate (s.core.verts.map Out.v3)
+      let en := " ".intercalate (s.core.eqN.map Out.v3)
+      let hv := " ".intercalate (hoomd.map Out.v3)
+      pure (" ".intercalate log ++ s!" {vs} i{s.core.eqN.length} {en} {Out.scs s.core.eqD} "
+        ++ outNatLists s.core.faces ++ " " ++ outNatLists s.neighbors ++ " " ++ outEdgeCache s.edgesCache
+        ++ s!" {Out.sc s.core.volume} {Out.sc s.core.surfaceArea} {hv} " ++ outEdges lastEdges ++ " " ++ mergeInfo)
+  | "cpfull.run" => some do
+      -- <cpstate> <faces> <coplanar> <neighbors> <edges cache> <simplex areas: 0 | 1 list> <face centroids: 0 | 1 list>
+      -- <nops> ops; opcodes 0–5 as `cpstate.run`; 6 sortFaces faces1 | 7 mergeFaces faces1 | 8 read `edges`
+      --   | 9 get_face_area() | 10 face_centroids | 11 get_face_area("total")
+      let core : CPState α ← rdState c
+      let faces ← Rd.list c (Rd.list c (Rd.nat c))
+      let coplanar ← Rd.list c (Rd.list c (Rd.nat c))
+      let nbrs ← Rd.list c (Rd.list c (Rd.nat c))
+      let cache ← rdOpt c (Rd.list c (rdEdge c))
+      let sa : Option (List α) ← rdOpt c (Rd.list c (Rd.sc c))
+      let fc : Option (List (V3 α)) ← rdOpt c (Rd.list c (Rd.v3 c))
+      let mut s : CPFull α := ⟨core, faces, coplanar, nbrs, cache, sa, fc⟩
+      let mut hoomd : CPState.Hoomd α := ⟨core.verts, core.centroid, core.volume⟩
+      let mut lastEdges : List Edge2 := []
+      let mut lastAreas : List α := []
+      let mut lastCents : List (V3 α) := []
+      let mut lastTotal : α := Scalar.lit 0
+      let mut mergeInfo : String := "i0"
+      let n ← Rd.nat c
+      let mut log : List String := []
+      for _ in [0:n] do
+        let code ← Rd.nat c
+        if code ≤ 5 then
+          let r ← cpCoreStep c code s.core
+          s := { s with core := r.1 }
+          log := log ++ [if r.2.1 then "i1" else "i0"]
+          match r.2.2 with
+          | some h => hoomd := h
+          | none => pure ()
+        else if code = 6 then
+          let faces1 ← Rd.list c (Rd.list c (Rd.nat c))
+          match s.sortFaces faces1 with
+          | .ok s' => s := s'; log := log ++ ["i0"]
+          | .error _ => log := log ++ ["i1"]
+        else if code = 7 then
+          let faces1 ← Rd.list c (Rd.list c (Rd.nat c))
+          mergeInfo := "i1 " ++ outNats s.mergeLabels ++ " " ++ Out.bool (s.mergeContract faces1)
+          let r := s.mergeFaces faces1
+          s := r.1
+          log := log ++ [if r.2.isSome then "i1" else "i0"]
+        else if code = 8 then
+          let r := s.readEdges
+          lastEdges := r.1; s := r.2; log := log ++ ["i0"]
+        else if code = 9 then
+          let r := s.getFaceArea
+          lastAreas := r.1; s := r.2; log := log ++ ["i0"]
+        else if code = 10 then
+          let r := s.readFaceCentroids
+          lastCents := r.1; s := r.2; log := log ++ ["i0"]
+        else
+          let r := s.getFaceAreaTotal
+          lastTotal := r.1; s := r.2; log := log ++ ["i0"]
+      let hv := " ".intercalate (hoomd.vertices.map Out.v3)
+      let optScs := fun (o : Option (List α)) => match o with
+        | none => "i0"
+        | some l => s!"i1 i{l.length} " ++ Out.scs l
+      let optV3s := fun (o : Option (List (V3 α))) => match o with
+        | none => "i0"
+        | some l => s!"i1 i{l.length} " ++ " ".intercalate (l.map Out.v3)
+      pure (" ".intercalate log ++ s!" i{s.core.eqN.length} i{s.core.seqN.length} " ++ outState s.core ++ " "
+        ++ outNatLists s.faces ++ " " ++ outNatLists s.neighbors ++ " " ++ outEdgeCache s.edgesCache ++ " "
+        ++ optScs s.simplexAreas ++ " " ++ optV3s s.faceCentroids ++ " " ++ hv ++ " " ++ Out.v3 hoomd.centroid ++ " "
+        ++ Out.sc hoomd.volume ++ " " ++ outEdges lastEdges ++ s!" i{lastAreas.length} " ++ Out.scs lastAreas
+        ++ s!" i{lastCents.length} " ++ " ".intercalate (lastCents.map Out.v3) ++ " " ++ Out.sc lastTotal ++ " " ++ mergeInfo)
   | "pgstate.run" => some do
       -- <verts> <normal> <nops> ops; opcodes: 0 setArea v | 1 setPerimeter v | 2 setRadius cur v
       --   | 3 setCentroid cur c | 4 toHoomd c0 c1
@@ -245,6 +439,11 @@ def run (α : Type) [Scalar α] [Codec α] (op : String) (c : Ctx) : Option (Rd 
       pure (" ".intercalate log ++ " " ++ outState s.core ++ " " ++ Out.sc s.radius ++ " "
         ++ Out.sc (s.steinerVolume h) ++ " " ++ Out.sc (s.steinerArea h) ++ " " ++ Out.sc (s.steinerCurvature h)
         ++ " " ++ hv)
+  | "phgeom.check" => some do
+      -- certificate of the hypotheses of `ph_coherent_history` (run it in Q mode: exact): <verts> <faces> -> bool
+      let verts : List (V3 α) ← Rd.list c (Rd.v3 c)
+      let faces ← Rd.list c (Rd.list c (Rd.nat c))
+      pure (Out.bool (closedPolyCheck verts faces))
   | "rot.fix" => some do
       -- in: P (9) ; out: det P, fixHanded P (9), det of it
       let P : M3 α ← rdM3 c
